@@ -1,8 +1,8 @@
 SPECIFICATION Spec
 CONSTANTS
   Callers = {}
-  Reqs = {"r1","r2","n1"}
-  CallReqs = {"r1","r2"}
+  Reqs = {"r1","d1","n1"}
+  CallReqs = {"r1","d1"}
   CancelOf <- NoCancelOf
   DupOf <- Dup1
   Closers = {"c1"}
